@@ -71,7 +71,7 @@ func init() {
 		NotDecided:  "identical content of the snapshot across replicas.",
 	}
 	registry["C14"] = &propSpec{
-		Rules:       []ruleFn{ruleC14Lock, ruleC14Block, ruleC14Fatal, ruleC14Idx, ruleC14Wrap, ruleC17Matrix, ruleC17Srv, ruleC07AddOrder("C14-NODUP"), ruleC09, ruleWgDone("C14-WGDONE"), ruleNilOK("C14-NILOK")},
+		Rules:       []ruleFn{ruleC14Lock, ruleC14Block, ruleC14Fatal, ruleC14Idx, ruleC14Wrap, ruleC17Matrix, ruleC17Srv, ruleC07AddOrder("C14-NODUP"), ruleC09, ruleWgDone("C14-WGDONE"), ruleNilOK("C14-NILOK"), ruleMakeLen("C14-MAKELEN")},
 		Explanation: "Decides, for every production function: no double unlock (incl. deferred), no self-deadlock directly or through a callee, no return with a lock held, an acyclic lock order; no blocking send under the controller / replica-server lock outside the allow-listed consumer-backed queues; in the handler-reachable region only allow-listed terminators and single-value type assertions, bounds facts on chains received from replicas, no nil result dereferenced with its error ignored; every route wrapped by HandleError and action routes by checkAction.",
 		NotDecided:  "panics inside third-party handlers, resource exhaustion, liveness of remote calls made under the lock.",
 	}
